@@ -84,7 +84,14 @@ fn auth_header(c: &mut Cur) -> Option<Option<String>> {
         }
     }
     if claims != 4 {
-        m.insert("exp".into(), ji(now + exp as i64));
+        // two sentinels: an expiry at the largest i64 / u64 number of seconds
+        if exp == 1 << 62 {
+            m.insert("exp".into(), ji(i64::MAX));
+        } else if exp == (1 << 62) + 1 {
+            m.insert("exp".into(), serde_json::Value::from(u64::MAX));
+        } else {
+            m.insert("exp".into(), ji(now + exp as i64));
+        }
     }
     if claims != 5 {
         m.insert(
